@@ -855,6 +855,16 @@ def _net_fixed_cases():
     base = {"op": "circuit.net", "field_defs": [[0, 3, 2]], "order": [0]}
     yield dict(base, gates=[])
     yield dict(base, gates=[{"gate": H, "particles": [[0, 0]]}, {"gate": X, "particles": [[0, 0]]}])       # the idle-wire einsum case
+    # every single-qubit class once in ONE circuit (all pairs of classes meet: their tensor data are united, so no two classes may share a
+    # data reference), in two orders and spread over two wires
+    names = ["IdentityGate", "PauliXGate", "PauliYGate", "PauliZGate", "HadamardGate", "SxGate", "SGate", "SAdjGate", "TGate", "TAdjGate"]
+    fixed = [{"kind": "single", "cls": c, "args": []} for c in names]
+    par = [{"kind": "single", "cls": "RxGate", "args": [0.3]}, {"kind": "single", "cls": "RyGate", "args": [0.3]}, {"kind": "single", "cls": "RzGate", "args": [0.3]},
+           {"kind": "single", "cls": "RotationGate", "args": [[0.3, 0.0, 0.0]]}, {"kind": "phase", "phi": 0.3, "m": 1}]
+    two_wires = {"op": "circuit.net", "field_defs": [[0, 2, 2]], "order": [0]}
+    yield dict(two_wires, gates=[{"gate": g, "particles": [[0, k % 2]]} for k, g in enumerate(fixed + par)])
+    yield dict(two_wires, gates=[{"gate": g, "particles": [[0, (k // 2) % 2]]} for k, g in enumerate(reversed(par + fixed))])
+    yield dict(two_wires, gates=[{"gate": cn([1], g), "particles": [[0, 0], [0, 1]]} for g in fixed[5:] + par[:3]])
     yield dict(base, gates=[{"gate": cn([0], X), "particles": [[0, 2], [0, 0]]}, {"gate": X, "particles": [[0, 0]]}])
     yield dict(base, gates=[{"gate": cn([0, 1], Ry(0.3)), "particles": [[0, 2], [0, 0], [0, 1]]},
                             {"gate": cn([1], Ry(-1.1)), "particles": [[0, 2], [0, 1]]}])
